@@ -216,10 +216,17 @@ class _Core(object):
                     if x <= t:
                         record(x, z, pace)
                 uniq = sorted(set(pts))
-                sol = solve_ivp(
-                    lambda tt, zz: f_aug(tt, zz, pace), (t, tn), z,
-                    method='LSODA', rtol=self._rtol, atol=self._atol,
-                    t_eval=uniq + [tn], dense_output=False)
+                sol = None
+                # (LSODA occasionally gives up on segments of a few ulps
+                # between a log point and a dosing event: other integrators
+                # of the same tolerances take over)
+                for method_ in ('LSODA', 'DOP853', 'Radau'):
+                    sol = solve_ivp(
+                        lambda tt, zz: f_aug(tt, zz, pace), (t, tn), z,
+                        method=method_, rtol=self._rtol, atol=self._atol,
+                        t_eval=uniq + [tn], dense_output=False)
+                    if sol.success and sol.y.shape[1] == len(uniq) + 1:
+                        break
                 if not sol.success:
                     raise ArithmeticError(sol.message)
                 if sol.y.shape[1] != len(uniq) + 1:
